@@ -109,7 +109,8 @@ Record facts := {
   f_sniff_peek : nat;                         (* how many bytes open_stream asks peek() for *)
   f_writer_passthrough : bool;                (* open_stream returns fp unchanged when "w" in mode *)
   f_ext_chain : list ext_branch;              (* open_path, in source order *)
-  f_path_fallback_sniffs : bool;              (* open_path: no extension matched, binary read -> open_stream *)
+  f_path_fallback_sniffs : bool;              (* open_path: no extension matched, binary read of a file -> open_stream *)
+  f_stdin_fallback_sniffs : bool;             (* open_path: path is "-" / "" (standard input), binary read -> open_stream *)
   f_cont_chain : list cont_branch;            (* find_adapter_for_stream, in source order *)
   f_cont_peek : nat;
   f_ext_to_adapter : list (bytes * bytes);    (* RecordAdapter's ext_to_adapter *)
@@ -188,6 +189,10 @@ Definition open_path_read (F : facts) (e : env) (path pk : bytes) : opened :=
   | ExtCodec c => OCodec c
   | ExtUnavailable c => ONotAvailable c
   end.
+
+(* open_path("-" or "", "rb"): standard input named explicitly (e.g. through "stream://-"); no extension to go by *)
+Definition open_stdin_read (F : facts) (e : env) (pk : bytes) : opened :=
+  OCodec (if f_stdin_fallback_sniffs F then sniff_codec F e pk else Plain).
 
 (* ---------------------------------------------------------------------------------------------- *)
 (* RecordAdapter: which adapter a URL / path names (posixpath.splitext, urllib.parse.urlsplit restricted to
@@ -308,6 +313,13 @@ Definition read_path (k path bs : bytes) : outcome :=
   | ONotAvailable c => NotAvailable c
   end.
 
+(* adapter class k given "-" / "": RecordReader("<scheme>://-"), RecordReader("<scheme>://") -> open_path -> stdin *)
+Definition read_stdin_as (k bs : bytes) : outcome :=
+  match open_stdin_read F e (peek bs) with
+  | OCodec c => run_adapter k (unwrap c bs)
+  | ONotAvailable c => NotAvailable c
+  end.
+
 (* adapter class k given an open file object: open_path_or_stream -> open_stream *)
 Definition read_fileobj_as (k bs : bytes) : outcome := run_adapter k (open_stream_rd bs).
 
@@ -414,4 +426,4 @@ Definition adapters_ok (F : facts) : bool :=
 
 Definition facts_ok (F : facts) : bool :=
   sniff_chain_ok F && ext_chain_ok F && cont_chain_ok F && containers_vs_codecs_ok F && adapters_ok F &&
-  f_writer_passthrough F && f_path_fallback_sniffs F.
+  f_writer_passthrough F && f_path_fallback_sniffs F && f_stdin_fallback_sniffs F.
